@@ -123,6 +123,7 @@ PartsVars(parts) == IF parts = <<>> THEN <<>>
 (* Well-formedness of a declaration in a scope (enabling condition)        *)
 Enabled(st, d) ==
   CASE d.k = "file"   -> st.scope = <<>>
+    [] d.k = "import" -> st.scope = <<>>
     [] d.k = "app"    -> st.scope = <<>>
     [] d.k = "type"   -> InScope(st, "app")
     [] d.k = "field"  -> InScope(st, "type") /\ Top(st).kind \in {"tuple", "relation"}
@@ -204,7 +205,9 @@ StepSub(st, d) ==
       s1 == Add(st, {<<"sub", app, ep, d.src>>, <<"app", d.src>>, <<"event", d.src, d.name>>,
                      <<"stmt", d.src, d.name, ToString(n), "call", app \o " <- " \o ep>>})
       s2 == SetStmtCount(s1, d.src, d.name, n)
-  IN Push(Loc(s2, <<"ep", app, ep>>, d), [k |-> "ep", app |-> app, ep |-> ep, own |-> 0])
+      \* the injected call is located at the subscription that causes it
+      s3 == Loc(Loc(s2, <<"ep", app, ep>>, d), <<"stmt", d.src, d.name, ToString(n)>>, d)
+  IN Push(s3, [k |-> "ep", app |-> app, ep |-> ep, own |-> 0])
 
 StepRest(st, d) ==
   LET fr == Top(st)
@@ -272,6 +275,7 @@ StepChoice(st, d) ==
 
 Step(st, d) ==
   CASE d.k = "file"   -> [st EXCEPT !.file = d.name]
+    [] d.k = "import" -> Add(st, {<<"import", d.name, "">>})
     [] d.k = "app"    -> StepApp(st, d)
     [] d.k = "type"   -> StepType(st, d)
     [] d.k = "field"  -> StepField(st, d)
